@@ -9,7 +9,7 @@ from .. import common
 from ..engine_enum import Acc, run_shards
 from ..evidence import Report
 from .parser_common import hexs, sigs
-from .ports_common import Horizon, install_seams
+from .ports_common import Endless, Horizon, install_seams, take
 
 PROP = 'C18'
 
@@ -69,7 +69,7 @@ def run_one(mido, tshim, stream, cut, cuts, consume, how_close, acc, label):
                 if m is not None:
                     got.append(m)
             elif c == 2:
-                got.extend(port.iter_pending())
+                got.extend(take(port.iter_pending()))
         if how_close == 'close':
             b.close()
         else:
@@ -230,7 +230,7 @@ def check_burst(mido, tshim, acc, n, how, content='notes'):
         b.close()
         got = []
         if how == 'iterate':
-            got = list(port)
+            got = take(port)
         elif how == 'poll':
             while True:
                 m = port.poll()
@@ -238,7 +238,7 @@ def check_burst(mido, tshim, acc, n, how, content='notes'):
                     break
                 got.append(m)
         else:
-            got = list(port.iter_pending()) + list(port.iter_pending())
+            got = take(port.iter_pending()) + take(port.iter_pending())
         if sigs(got) != sigs(msgs):
             acc.violation(f'burst/{how}/{content}',
                           f'{n} messages ({content}) then disconnect, drained '
@@ -284,7 +284,7 @@ def check_send_after_disconnect(mido, tshim, acc, nmsgs, nsends):
             except Exception:
                 pass            # not judged
         try:
-            got = list(port)
+            got = take(port)
         except Horizon:
             acc.violation('send-after-disconnect/iteration-did-not-end',
                           f'{nmsgs} messages, {nsends} sends', case)
@@ -426,7 +426,7 @@ def check_server(mido, tshim, acc, nclients, nmsgs, mode):
                 if mode == 'poll':
                     m = server.poll()
                 elif mode == 'iter_pending':
-                    ms = list(server.iter_pending())
+                    ms = take(server.iter_pending())
                     m = None
                     got += [(x.channel, x.note) for x in ms]
                 else:
